@@ -162,6 +162,40 @@ contract(T + "BoolValueObject.matches", props=P,
                   "implies((lower(tag_value) in %s) or (lower(tag_value) in %s), result == vo_compare(self, lower(tag_value) in %s))"
                   % (TRUES, FALSES, TRUES)})
 
+# -- composite provider: only categories some member provider knows are cached ---------------------------------------
+shape("CompositeActiveTagValueProvider", data="dict", value_providers="seq:any")
+oracle("used_value", ["val"], "val")
+contract("abs:ActiveTagValueProvider.use_value", trusted=True, pos_params=["value"], pure=True,
+         ensures={"value": "result == used_value(value) and implies(value is Unknown, result is Unknown)"},
+         doc="use_value(value): calls a lazy value function, keeps the Unknown placeholder (proved bounded; fix 0460e44)")
+PROVS = "as_list(self.value_providers, 'any')"
+KNOWS = "(provider_value(%s[k], category) is not Unknown)" % PROVS
+contract(T + "CompositeActiveTagValueProvider.get", props=P,
+         params={"self": "ref:CompositeActiveTagValueProvider", "category": "str", "default": "any"},
+         self_classes=["CompositeActiveTagValueProvider"],
+         callsites={"value_provider.get": "abs:provider.get", "self.use_value": "abs:ActiveTagValueProvider.use_value"},
+         modifies=["dict(self.data)"],
+         requires={"cache-holds-no-placeholder": "forall_val(lambda c: implies(has_key(self.data, c), dict_value(self.data, c) is not Unknown))"},
+         loops=[Loop(invariant={"no-earlier-provider-knows-the-category":
+                                "forall(lambda k: implies(0 <= k < _i, not %s))" % KNOWS,
+                                "cache-untouched-so-far": "forall_val(lambda c: has_key(self.data, c) == old(has_key(self.data, c)) and "
+                                                          "implies(has_key(self.data, c), dict_value(self.data, c) == old(dict_value(self.data, c))))",
+                                "still-unknown": "value is Unknown",
+                                "same": "_seq is self.value_providers"})],
+         ensures={
+             "a-category-is-cached-only-if-it-was-or-some-provider-knows-it":
+                 "has_key(self.data, category) == (old(has_key(self.data, category)) or "
+                 "exists(lambda k: 0 <= k < len(%s) and %s))" % (PROVS, KNOWS),
+             "other-categories-untouched":
+                 "forall_val(lambda c: implies(c != category, has_key(self.data, c) == old(has_key(self.data, c)) and "
+                 "implies(has_key(self.data, c), dict_value(self.data, c) == old(dict_value(self.data, c)))))",
+             "the-cache-never-holds-the-placeholder-or-a-default":
+                 "forall_val(lambda c: implies(has_key(self.data, c), dict_value(self.data, c) is not Unknown))",
+             "unknown-everywhere-gives-the-default":
+                 "implies(not old(has_key(self.data, category)) and not exists(lambda k: 0 <= k < len(%s) and %s), "
+                 "result == used_value(default))" % (PROVS, KNOWS),
+         })
+
 prop("C19", level="proof",
      bounded=[],
      explanation="per-category logic of is_tag_group_enabled proved against the documented formula for tag groups "
